@@ -18,6 +18,9 @@ in-memory overlays. Expected: every check exits 0 and prints exactly the KNOWN-F
  M13 if-invert : `if c: A else: B` -> `if not c: B else: A`
  M14 else      : explicit `else:` after a branch that returns/raises
  M15 compreh.  : append loops become list comprehensions
+ M17 constants : integer literals >= 16 inside functions become new module-level named constants
+ M18 nesting   : early exits become `if not c: <rest> else: <exit>` (M14 then M13)
+ M19 combo     : temporaries inlined, then += chains joined (M12 then M16)
  M16 join      : `x = <bytes>; x += a; x += b` chains become one b"".join([...])
 """
 from __future__ import annotations
@@ -363,6 +366,45 @@ class M16(ast.NodeTransformer):
         return node
 
 
+class M17(ast.NodeTransformer):
+    """magic numbers -> named constants: every integer literal >= 16 inside a function body becomes a new module-level constant."""
+
+    def __init__(self):
+        self.consts: Dict[int, str] = {}
+        self.depth = 0
+
+    def visit_FunctionDef(self, node):
+        # defaults / decorators / annotations are left alone
+        self.depth += 1
+        node.body = [self.visit(s) for s in node.body]
+        self.depth -= 1
+        return node
+
+    visit_AsyncFunctionDef = visit_FunctionDef
+
+    def visit_JoinedStr(self, node):
+        return node
+
+    def visit_Constant(self, node):
+        if self.depth and isinstance(node.value, int) and not isinstance(node.value, bool) and node.value >= 16:
+            name = self.consts.setdefault(node.value, f"_MUT_CONST_{node.value:X}")
+            return ast.copy_location(ast.Name(id=name, ctx=ast.Load()), node)
+        return node
+
+
+def _m17(t: ast.Module) -> ast.Module:
+    m = M17()
+    t = m.visit(t)
+    if m.consts:
+        i = 0
+        while i < len(t.body) and (isinstance(t.body[i], (ast.Import, ast.ImportFrom)) or (isinstance(t.body[i], ast.Expr) and isinstance(t.body[i].value, ast.Constant))):
+            i += 1
+        defs = [ast.Assign(targets=[ast.Name(id=n, ctx=ast.Store())], value=ast.Constant(value=v), lineno=1, col_offset=0) for v, n in sorted(m.consts.items())]
+        t.body[i:i] = defs
+        ast.fix_missing_locations(t)
+    return t
+
+
 MUTATORS: Dict[str, Callable[[ast.Module], ast.Module]] = {
     "M1-reformat": lambda t: t,
     "M2-logging": lambda t: M2().visit(t),
@@ -380,6 +422,9 @@ MUTATORS: Dict[str, Callable[[ast.Module], ast.Module]] = {
     "M14-explicit-else": lambda t: M14().visit(t),
     "M15-comprehension": lambda t: M15().visit(t),
     "M16-join-assembly": lambda t: M16().visit(t),
+    "M17-named-constants": _m17,
+    "M18-nested-guards": lambda t: M13().visit(M14().visit(t)),
+    "M19-temps-then-join": lambda t: M16().visit(M12().visit(t)),
 }
 
 
